@@ -206,6 +206,11 @@ func init() {
 		g.assert(a[0].(BoolV), argStr(a[1]), pos)
 		return nil
 	})
+	V("AssertVM", func(g *G, a []Value, pos token.Pos) Value {
+		g.vm.ex.vmOnly[argStr(a[1])] = true
+		g.assert(a[0].(BoolV), argStr(a[1]), pos)
+		return nil
+	})
 	V("Fail", func(g *G, a []Value, pos token.Pos) Value {
 		g.assert(mkBool(false), argStr(a[0]), pos)
 		return nil
